@@ -17,8 +17,11 @@ LEVEL = ('decides the wiring of reification: the wrapped propagator runs only on
          'constraints (R8). Predicate negation is the exact complement (R9). the arithmetic constraint'
          ' builders (≤, <, =, ≠, plus, maximum, minimum and the binary forms) and the negations of '
          'Inequality / Equal / NotEqual mean what they say, decided by abstract evaluation in the '
-         'linear-form domain on a 5-value window (R10). Does not decide that wrapped propagators or '
-         "the negations' arithmetic are right")
+         'linear-form domain on a 5-value window (R10). next_local_id only grows (R11); propagate '
+         'consumes the cached inconsistency on every path under no further condition (R12 MUST-PASS); '
+         'wrapped incremental propagators never drop pending updates silently and reset un-trailed '
+         'accumulators on backtrack (R13 = C08-H5, R14 = C17-L20). Does not decide that wrapped '
+         "propagators or the negations' arithmetic are right")
 TECHNIQUE = "static analysis: dominance / FORWARD-ALL / taint through closures / sibling agreement over rustc MIR"
 
 REIF = "ReifiedPropagator"
